@@ -6,7 +6,7 @@
 From Nexus Require Import Router.Realm Router.AssocLemmas Router.RealmLib Router.RealmProofs
      Router.RealmMetaProofs Router.RealmLeave.
 From Nexus Require Import Router.BrokerWf Router.BrokerPres Router.BrokerSub Router.BrokerHist.
-From Nexus Require Import Router.DealerLib Router.DealerProofs Router.DealerCall Router.DealerWf.
+From Nexus Require Import Router.DealerLib Router.DealerProofs Router.DealerReg Router.DealerCall Router.DealerWf.
 From Coq Require Import Lia ZifyN ZifyBool.
 
 Definition client (r : realm) (sid : N) : Prop := find_session (r_clients r) sid <> None.
@@ -22,6 +22,28 @@ Definition hist_same (b0 b : broker) : Prop :=
 Lemma hist_same_refl : forall b, hist_same b b.
 Proof. intros b; split; auto. Qed.
 
+(** the dealer a realm starts with, and what never changes about it: the
+    registrations of the meta session *)
+Definition init_f (cfg : config) :=
+  fun '((d, procs) : dealer * list (N * string)) name =>
+    let '(d1, o, _) := register cfg d meta_session (N.of_nat (List.length procs) + 1) [("disclose_caller", VBool true)] name in
+    match o with
+    | [(_, RRegistered _ id)] => (d1, procs ++ [(id, name)])
+    | _ => (d1, procs)
+    end.
+
+Definition dealer0 (cfg : config) : dealer :=
+  fst (fold_left (init_f cfg) (meta_proc_names cfg) (empty_dealer, [])).
+
+Definition meta_regs_same (d0 d : dealer) : Prop :=
+  (forall id rg0, nget (d_regs d0) id = Some rg0 ->
+     exists rg, nget (d_regs d) id = Some rg /\ reg_proc rg = reg_proc rg0 /\ reg_match rg = reg_match rg0 /\
+                In meta_id (reg_callees rg)) /\
+  (forall id rg, nget (d_regs d) id = Some rg -> In meta_id (reg_callees rg) -> nget (d_regs d0) id <> None).
+
+Lemma meta_regs_same_ext : forall d0 d d', d_regs d' = d_regs d -> meta_regs_same d0 d -> meta_regs_same d0 d'.
+Proof. intros d0 d d' E [A B]. split; rewrite E; assumption. Qed.
+
 Record realm_wf (r : realm) : Prop := mkRealmWf {
   rw_meta_id : s_id (r_meta r) = meta_id;
   rw_no_meta : find_session (r_clients r) meta_id = None;
@@ -36,7 +58,9 @@ Record realm_wf (r : realm) : Prop := mkRealmWf {
   (* the meta session never calls *)
   rw_calls_nometa : forall c x, cget (d_calls (r_dealer r)) c = Some x -> fst c <> meta_id;
   (* the history subscriptions are the configured ones *)
-  rw_hist : hist_same (broker0 (r_cfg r)) (r_broker r)
+  rw_hist : hist_same (broker0 (r_cfg r)) (r_broker r);
+  (* the meta session's registrations are the initial ones *)
+  rw_metaregs : meta_regs_same (dealer0 (r_cfg r)) (r_dealer r)
 }.
 
 (** the id generators stay below [k] (ids wrap around at 2^53; the invariant
@@ -264,7 +288,7 @@ Lemma wf_set_broker : forall r b pg,
     hist_same (broker0 (r_cfg r)) b ->
     realm_wf (r_set_broker r b pg).
 Proof.
-  intros r b pg [A B C D E F G H I J K] Wb Hs Hh. constructor; cbn [r_set_broker r_meta r_clients r_broker r_dealer r_testaments r_cfg]; auto.
+  intros r b pg [A B C D E F G H I J K L] Wb Hs Hh. constructor; cbn [r_set_broker r_meta r_clients r_broker r_dealer r_testaments r_cfg]; auto.
 Qed.
 
 (** the four broker operations keep the history subscriptions *)
@@ -311,13 +335,152 @@ Proof. intros d d' [S _] H c x Hc. eapply H. eapply S. exact Hc. Qed.
 
 Lemma wf_set_dealer : forall r d,
     realm_wf r -> dealer_wf (lookup r) d -> cr_nonempty (d_callee_regs d) -> calls_nometa d ->
+    meta_regs_same (dealer0 (r_cfg r)) d ->
     realm_wf (r_set_dealer r d).
 Proof.
-  intros r d [A B C D E F G H I J K] Wd Hc Hn. constructor; cbn [r_set_dealer r_meta r_clients r_broker r_dealer r_testaments r_cfg]; auto.
+  intros r d [A B C D E F G H I J K L] Wd Hc Hn Hm. constructor; cbn [r_set_dealer r_meta r_clients r_broker r_dealer r_testaments r_cfg]; auto.
 Qed.
 
 Lemma ids_below_mono : forall k k' r, ids_below k r -> k <= k' -> ids_below k' r.
 Proof. intros k k' r (A & B & C) H. repeat split; try lia. intros x s E. specialize (C x s E). lia. Qed.
+
+(** ** The registrations of the meta session are never touched by clients *)
+Lemma mrs_update : forall d0 d d' id rg rg',
+    meta_regs_same d0 d -> nget (d_regs d) id = Some rg -> d_regs d' = nset (d_regs d) id rg' ->
+    reg_proc rg' = reg_proc rg -> reg_match rg' = reg_match rg ->
+    (In meta_id (reg_callees rg) <-> In meta_id (reg_callees rg')) ->
+    meta_regs_same d0 d'.
+Proof.
+  intros d0 d d' id rg rg' [A B] Hr E Hp Hm Hi. split; rewrite E.
+  - intros id0 rg0 H0. destruct (A id0 rg0 H0) as (rg1 & H1 & P1 & M1 & I1). rewrite ngs.
+    destruct (N.eqb_spec id0 id) as [->|Hn]; [|eauto].
+    assert (rg1 = rg) by congruence. subst rg1. exists rg'. repeat split; try congruence. now apply Hi.
+  - intros id1 rg1. rewrite ngs. destruct (N.eqb_spec id1 id) as [->|Hn]; [|apply B].
+    intros H1 Hin. inversion H1; subst rg1. eapply B; [exact Hr|now apply Hi].
+Qed.
+
+Lemma mrs_add : forall d0 d d' id rg',
+    meta_regs_same d0 d -> nget (d_regs d) id = None -> d_regs d' = nset (d_regs d) id rg' ->
+    ~ In meta_id (reg_callees rg') -> meta_regs_same d0 d'.
+Proof.
+  intros d0 d d' id rg' [A B] Hn E Hi. split; rewrite E.
+  - intros id0 rg0 H0. destruct (A id0 rg0 H0) as (rg1 & H1 & P). rewrite ngs.
+    destruct (N.eqb_spec id0 id) as [->|Hne]; [congruence|eauto].
+  - intros id1 rg1. rewrite ngs. destruct (N.eqb_spec id1 id) as [->|Hne]; [|apply B].
+    intros H1 Hin. inversion H1; subst. contradiction.
+Qed.
+
+Lemma mrs_del : forall d0 d d' id rg,
+    meta_regs_same d0 d -> nget (d_regs d) id = Some rg -> ~ In meta_id (reg_callees rg) ->
+    d_regs d' = ndel (d_regs d) id -> meta_regs_same d0 d'.
+Proof.
+  intros d0 d d' id rg [A B] Hr Hi E. split; rewrite E.
+  - intros id0 rg0 H0. destruct (A id0 rg0 H0) as (rg1 & H1 & P1 & M1 & I1). rewrite ngd.
+    destruct (N.eqb_spec id0 id) as [->|Hne]; [|eauto]. assert (rg1 = rg) by congruence. subst. contradiction.
+  - intros id1 rg1. rewrite ngd. destruct (N.eqb_spec id1 id); [discriminate|apply B].
+Qed.
+
+Lemma mrs_register : forall d0 cfg d s req opts proc,
+    meta_regs_same d0 d -> regs_core d -> d_idgen d < max_idN -> s_id s <> meta_id ->
+    meta_regs_same d0 (fst (fst (register cfg d s req opts proc))).
+Proof.
+  intros d0 cfg d s req opts proc H W Hlt Hs. unfold register.
+  destruct (negb (valid_uri _ _ _)); [exact H|].
+  destruct (str_prefix_wamp proc && _); [exact H|].
+  destruct (negb (c_disclose cfg) && _ && _); [exact H|].
+  destruct (sget (d_map d (mkind_of (opt_string opts "match"))) proc) as [id0|] eqn:Hm.
+  - destruct (nget (d_regs d) id0) as [rg|] eqn:Hr.
+    + destruct (negb (shared_policy _) || _ || _); [exact H|]. cbn [fst].
+      destruct (rw_reg d W id0 rg Hr) as (Eid & _). rewrite Eid.
+      eapply (mrs_update d0 d _ id0 rg); [exact H|exact Hr|reflexivity|reflexivity|reflexivity|].
+      cbn [reg_callees]. rewrite in_app_iff. cbn [In]. split; [auto|]. intros [Hi|[Hi|[]]]; [exact Hi|congruence].
+    + cbn [fst]. eapply (mrs_add d0 d _ (idgen_next (d_idgen d))); [exact H| | |].
+      * destruct (nget (d_regs d) (idgen_next (d_idgen d))) as [rg|] eqn:E; [|reflexivity].
+        destruct (rw_reg d W _ _ E) as (_ & _ & Hle). rewrite idgen_next_nowrap in Hle by exact Hlt. lia.
+      * destruct (mkind_of (opt_string opts "match")); reflexivity.
+      * cbn [reg_callees In]. intros [Hi|[]]. congruence.
+  - cbn [fst]. eapply (mrs_add d0 d _ (idgen_next (d_idgen d))); [exact H| | |].
+    + destruct (nget (d_regs d) (idgen_next (d_idgen d))) as [rg|] eqn:E; [|reflexivity].
+      destruct (rw_reg d W _ _ E) as (_ & _ & Hle). rewrite idgen_next_nowrap in Hle by exact Hlt. lia.
+    + destruct (mkind_of (opt_string opts "match")); reflexivity.
+    + cbn [reg_callees In]. intros [Hi|[]]. congruence.
+Qed.
+
+Lemma mrs_del_callee_reg : forall d0 d sid id,
+    meta_regs_same d0 d -> sid <> meta_id -> meta_regs_same d0 (fst (del_callee_reg d sid id)).
+Proof.
+  intros d0 d sid id H Hs. unfold del_callee_reg.
+  destruct (nget (d_regs d) id) as [rg|] eqn:Hr; [|exact H].
+  destruct (negb (nmem sid (reg_callees rg))); [exact H|].
+  destruct (nremove1 sid (reg_callees rg)) as [|c cs] eqn:Ec; cbn [fst].
+  - eapply (mrs_del d0 d _ id rg); [exact H|exact Hr| |].
+    + intros Hi. assert (Hin : In meta_id (nremove1 sid (reg_callees rg))) by (apply In_nremove1_other; [congruence|exact Hi]).
+      rewrite Ec in Hin. destruct Hin.
+    + destruct (mkind_of (reg_match rg)); reflexivity.
+  - eapply (mrs_update d0 d _ id rg); [exact H|exact Hr|reflexivity|reflexivity|reflexivity|].
+    cbn [reg_callees]. rewrite <- Ec. split.
+    + intros Hi. apply In_nremove1_other; [congruence|exact Hi].
+    + apply In_nremove1.
+Qed.
+
+Lemma mrs_unregister : forall d0 d sid req id,
+    meta_regs_same d0 d -> sid <> meta_id -> meta_regs_same d0 (fst (fst (unregister d sid req id))).
+Proof.
+  intros d0 d sid req id H Hs. unfold unregister.
+  pose proof (mrs_del_callee_reg d0 (d_set_callee_regs d (callee_del_reg (d_callee_regs d) sid id)) sid id
+                                 (meta_regs_same_ext d0 d _ eq_refl H) Hs) as M.
+  destruct (del_callee_reg _ sid id) as [d1 [deleted|]]; cbn [fst] in *; [exact M|].
+  eapply meta_regs_same_ext; [|exact H]. reflexivity.
+Qed.
+
+Lemma cancel_served_regs : forall lk sid acc e,
+    d_regs (fst (cancel_served lk sid acc e)) = d_regs (fst acc).
+Proof.
+  intros lk sid [d o] [ikey i0]. unfold cancel_served. cbn [fst].
+  destruct (cget (d_invs d) ikey) as [inv|]; [|reflexivity].
+  destruct (negb (inv_callee inv =? sid)); [reflexivity|].
+  destruct (cget (d_calls d) (inv_call inv)) as [caller|]; [|reflexivity].
+  match goal with |- context [sync_cancel ?a ?b ?c ?d0 ?e ?f ?g] =>
+    pose proof (sync_cancel_regs_same a b c d0 e f g) as S; destruct (sync_cancel a b c d0 e f g) as [d3 o3] end.
+  cbn [fst] in *. destruct S as (_ & _ & _ & E & _). rewrite E.
+  cbn [d_regs d_set_invs]. apply ct_regs.
+Qed.
+
+Lemma drop_own_call_regs : forall sid d e, d_regs (drop_own_call sid d e) = d_regs d.
+Proof.
+  intros sid d [cid caller]. unfold drop_own_call.
+  destruct (negb (caller =? sid)); [reflexivity|]. cbn [d_bycall d_set_calls d_invs].
+  destruct (cget (d_bycall d) cid) as [ikey|]; [|reflexivity].
+  destruct (cget (d_invs d) ikey) as [inv|]; cbn [d_regs d_set_invs d_set_bycall];
+    rewrite ?ct_regs; reflexivity.
+Qed.
+
+Lemma mrs_remove_fold : forall d0 sid regs d mp,
+    meta_regs_same d0 d -> sid <> meta_id ->
+    meta_regs_same d0 (fst (fold_left (remove_callee_reg sid) regs (d, mp))).
+Proof.
+  intros d0 sid regs; induction regs as [|id regs IH]; intros d mp H Hs; cbn [fold_left]; [exact H|].
+  destruct (remove_callee_reg sid (d, mp) id) as [d1 mp1] eqn:E. apply IH; [|exact Hs].
+  unfold remove_callee_reg in E. pose proof (mrs_del_callee_reg d0 d sid id H Hs) as M.
+  destruct (del_callee_reg d sid id) as [d2 [deleted|]]; inversion E; subst; cbn [fst] in M; auto.
+Qed.
+
+Lemma mrs_drs : forall d0 lk d sid,
+    meta_regs_same d0 d -> sid <> meta_id ->
+    meta_regs_same d0 (fst (fst (dealer_remove_session lk d sid))).
+Proof.
+  intros d0 lk d sid H Hs. unfold dealer_remove_session.
+  pose proof (mrs_remove_fold d0 sid (match nget (d_callee_regs d) sid with Some l => l | None => [] end) d [] H Hs) as M1.
+  destruct (fold_left (remove_callee_reg sid) _ (d, [])) as [d1 mp]. cbn [fst] in M1.
+  assert (E2 : forall l acc, d_regs (fst (fold_left (cancel_served lk sid) l acc)) = d_regs (fst acc)).
+  { induction l as [|e l IH]; intros acc; cbn [fold_left]; [reflexivity|]. rewrite IH. apply cancel_served_regs. }
+  specialize (E2 (d_invs (d_set_callee_regs d1 (ndel (d_callee_regs d1) sid)))
+                 (d_set_callee_regs d1 (ndel (d_callee_regs d1) sid), [])).
+  destruct (fold_left (cancel_served lk sid) _ _) as [d3 o]. cbn [fst] in *.
+  assert (E3 : forall l dd, d_regs (fold_left (drop_own_call sid) l dd) = d_regs dd).
+  { induction l as [|e l IH]; intros dd; cbn [fold_left]; [reflexivity|]. rewrite IH. apply drop_own_call_regs. }
+  eapply meta_regs_same_ext; [|exact M1]. rewrite E3, E2. reflexivity.
+Qed.
 
 (** ** Publications of the meta session and of clients *)
 Lemma publish_realm_wf : forall r pub req opts topic args kw,
@@ -407,6 +570,7 @@ Proof.
   { rewrite drs_callee_regs. apply cr_nonempty_ndel. exact (rw_cr_nonempty r W). }
   assert (Hnm : calls_nometa (fst (fst (dealer_remove_session (lookup r2) (r_dealer r) sid)))).
   { intros c x Hc. apply (drs_calls_sub (lookup r) _ _ _ (rw_dealer r W)) in Hc. eapply (rw_calls_nometa r W); eauto. }
+  pose proof (mrs_drs (dealer0 (r_cfg r)) (lookup r2) (r_dealer r) sid (rw_metaregs r W) Hsid) as Hmr.
   change (r_dealer r2) with (r_dealer r).
   destruct (dealer_remove_session (lookup r2) (r_dealer r) sid) as [[d o1] mps]. cbn [fst] in *.
   change (r_broker (r_set_dealer r2 d)) with (r_broker r). change (r_pubgen (r_set_dealer r2 d)) with (r_pubgen r).
@@ -433,6 +597,7 @@ Proof.
     + exact Hnm.
     + pose proof (hist_same_remove (broker0 (r_cfg r)) (r_broker r) (r_pubgen r) sid (rw_broker r W) (rw_hist r W)) as Hh.
       rewrite B in Hh. exact Hh.
+    + exact Hmr.
   - destruct I as (I1 & I2 & I3). unfold ids_below.
     cbn [r_broker r_dealer r_set_broker r_set_dealer r_set_testaments r_set_clients].
     split; [lia|]. split; [lia|].
@@ -557,7 +722,7 @@ Proof.
   { intros x C. unfold client in *. cbn [r1 r_clients r_set_clients]. rewrite find_session_app.
     destruct (find_session (r_clients r) x); [discriminate|contradiction]. }
   assert (W1 : realm_wf r1).
-  { destruct W as [A B C D E F' G' H' I' J' K']. constructor; cbn [r1 r_set_clients r_meta r_clients r_broker r_dealer r_testaments r_cfg]; auto.
+  { destruct W as [A B C D E F' G' H' I' J' K' L']. constructor; cbn [r1 r_set_clients r_meta r_clients r_broker r_dealer r_testaments r_cfg]; auto.
     - rewrite find_session_app, B. cbn [s s_id]. destruct (N.eqb_spec sid meta_id); [contradiction|reflexivity].
     - intros x Hx. apply in_app_or in Hx. destruct Hx as [Hx|[<-|[]]]; [auto|exact Hsid].
     - eapply dealer_wf_lookup_le; [exact Hle|exact E]. }
@@ -633,7 +798,7 @@ Proof.
     - rewrite find_put_same; [discriminate|exact C].
     - now rewrite find_put_other. }
   split.
-  - destruct W as [A B C D E F G H I J K].
+  - destruct W as [A B C D E F G H I J K L].
     constructor; rewrite ?F1, ?F2, ?F3, ?F4; auto.
     + unfold update_session. destruct (N.eqb_spec (s_id c) meta_id) as [Em|Em]; [exact Em|exact A].
     + unfold update_session. destruct (N.eqb_spec (s_id c) meta_id) as [Em|Em]; [exact B|].
@@ -691,7 +856,7 @@ Proof.
   - specialize (Hc c Ec).
     assert (G : forall te, (forall x, nget te x <> None -> x = c \/ nget (r_testaments r) x <> None) ->
                            NoDup (map fst te) -> realm_wf (r_set_testaments r te) /\ ids_below k (r_set_testaments r te)).
-    { intros te Hk Hn. split; [|exact I]. destruct W as [A B C D E' F G H I' J K].
+    { intros te Hk Hn. split; [|exact I]. destruct W as [A B C D E' F G H I' J K L].
       constructor; cbn [r_set_testaments r_meta r_clients r_broker r_dealer r_testaments r_cfg]; auto.
       intros x Hx. destruct (Hk x Hx) as [->|Hx']; [exact Hc|now apply G]. }
     destruct E as [E|E]; rewrite E; apply G.
@@ -705,13 +870,15 @@ Qed.
 Lemma dealer_step_wf : forall r d' k,
     realm_wf r -> ids_below k r -> dealer_wf (lookup r) d' ->
     d_callee_regs d' = d_callee_regs (r_dealer r) -> d_idgen d' = d_idgen (r_dealer r) ->
+    d_regs d' = d_regs (r_dealer r) ->
     calls_sub (r_dealer r) d' ->
     realm_wf (r_set_dealer r d') /\ ids_below k (r_set_dealer r d').
 Proof.
-  intros r d' k W I Wd Ecr Eid S. split.
+  intros r d' k W I Wd Ecr Eid Ereg S. split.
   - apply wf_set_dealer; auto.
     + rewrite Ecr. exact (rw_cr_nonempty r W).
     + eapply calls_nometa_sub; [exact S|exact (rw_calls_nometa r W)].
+    + eapply meta_regs_same_ext; [exact Ereg|exact (rw_metaregs r W)].
   - destruct I as (I1 & I2 & I3). repeat split; cbn [r_set_dealer r_broker r_dealer]; auto. lia.
 Qed.
 
@@ -720,9 +887,13 @@ Proof. reflexivity. Qed.
 Lemma drop_call_idgen : forall d c k, d_idgen (drop_call d c k) = d_idgen d.
 Proof. reflexivity. Qed.
 
+Lemma drop_call_regs : forall d c k, d_regs (drop_call d c k) = d_regs d.
+Proof. reflexivity. Qed.
+
 Lemma sync_yield_frame : forall d callee req opts args kw,
     d_callee_regs (fst (sync_yield d callee req opts args kw)) = d_callee_regs d /\
-    d_idgen (fst (sync_yield d callee req opts args kw)) = d_idgen d.
+    d_idgen (fst (sync_yield d callee req opts args kw)) = d_idgen d /\
+    d_regs (fst (sync_yield d callee req opts args kw)) = d_regs d.
 Proof.
   intros. unfold sync_yield.
   destruct (cget (d_invs d) (callee, req)) as [inv|]; [|auto].
@@ -730,18 +901,19 @@ Proof.
   - destruct (cget (d_calls d) (inv_call inv)); auto.
   - match goal with |- context [cget (d_calls ?D) _] => destruct (cget (d_calls D) (inv_call inv)) end;
       destruct (inv_inprogress inv); cbn [fst];
-      rewrite ?drop_call_cr, ?drop_call_idgen; cbn [d_callee_regs d_idgen d_set_invs];
-      rewrite ?ct_callee_regs, ?ct_idgen; auto.
+      rewrite ?drop_call_cr, ?drop_call_idgen, ?drop_call_regs; cbn [d_callee_regs d_idgen d_regs d_set_invs];
+      rewrite ?ct_callee_regs, ?ct_idgen, ?ct_regs; auto.
 Qed.
 
 Lemma sync_error_frame : forall d callee req det err args kw,
     d_callee_regs (fst (sync_error d callee req det err args kw)) = d_callee_regs d /\
-    d_idgen (fst (sync_error d callee req det err args kw)) = d_idgen d.
+    d_idgen (fst (sync_error d callee req det err args kw)) = d_idgen d /\
+    d_regs (fst (sync_error d callee req det err args kw)) = d_regs d.
 Proof.
   intros. unfold sync_error.
   destruct (cget (d_invs d) (callee, req)) as [inv|]; [|auto].
   match goal with |- context [cget (d_calls ?D) ?c] => destruct (cget (d_calls D) c) end; cbn [fst];
-    cbn [d_callee_regs d_idgen d_set_invs d_set_bycall d_set_calls]; rewrite ?ct_callee_regs, ?ct_idgen; auto.
+    cbn [d_callee_regs d_idgen d_regs d_set_invs d_set_bycall d_set_calls]; rewrite ?ct_callee_regs, ?ct_idgen, ?ct_regs; auto.
 Qed.
 
 Lemma sync_yield_realm_wf : forall r callee req opts args kw k,
@@ -749,7 +921,7 @@ Lemma sync_yield_realm_wf : forall r callee req opts args kw k,
     realm_wf (r_set_dealer r (fst (sync_yield (r_dealer r) callee req opts args kw))) /\
     ids_below k (r_set_dealer r (fst (sync_yield (r_dealer r) callee req opts args kw))).
 Proof.
-  intros. destruct (sync_yield_frame (r_dealer r) callee req opts args kw) as [E1 E2].
+  intros. destruct (sync_yield_frame (r_dealer r) callee req opts args kw) as (E1 & E2 & E3).
   apply dealer_step_wf; auto.
   - apply sync_yield_wf. apply (rw_dealer r H).
   - apply sync_yield_core. apply (wf_calls _ _ (rw_dealer r H)).
@@ -760,7 +932,7 @@ Lemma sync_error_realm_wf : forall r callee req det err args kw k,
     realm_wf (r_set_dealer r (fst (sync_error (r_dealer r) callee req det err args kw))) /\
     ids_below k (r_set_dealer r (fst (sync_error (r_dealer r) callee req det err args kw))).
 Proof.
-  intros. destruct (sync_error_frame (r_dealer r) callee req det err args kw) as [E1 E2].
+  intros. destruct (sync_error_frame (r_dealer r) callee req det err args kw) as (E1 & E2 & E3).
   apply dealer_step_wf; auto.
   - apply sync_error_wf. apply (rw_dealer r H).
   - apply sync_error_core. apply (wf_calls _ _ (rw_dealer r H)).
@@ -872,31 +1044,34 @@ Qed.
 (** ** Timers, CANCEL *)
 Lemma cancel_frame : forall lk d caller req opts,
     d_callee_regs (fst (cancel lk d caller req opts)) = d_callee_regs d /\
-    d_idgen (fst (cancel lk d caller req opts)) = d_idgen d.
+    d_idgen (fst (cancel lk d caller req opts)) = d_idgen d /\
+    d_regs (fst (cancel lk d caller req opts)) = d_regs d.
 Proof.
   intros. unfold cancel.
   destruct (_ || _ || _).
-  - destruct (sync_cancel_regs_same lk d caller req (opt_string opts "mode") e_canceled []) as (_ & _ & _ & _ & E & F). auto.
+  - destruct (sync_cancel_regs_same lk d caller req (opt_string opts "mode") e_canceled []) as (_ & _ & _ & G & E & F). auto.
   - destruct (String.eqb _ ""); [|auto].
-    destruct (sync_cancel_regs_same lk d caller req "killnowait" e_canceled []) as (_ & _ & _ & _ & E & F). auto.
+    destruct (sync_cancel_regs_same lk d caller req "killnowait" e_canceled []) as (_ & _ & _ & G & E & F). auto.
 Qed.
 
 Lemma fire_timers_frame : forall lk now d,
     d_callee_regs (fst (fire_timers lk now d)) = d_callee_regs d /\
     d_idgen (fst (fire_timers lk now d)) = d_idgen d /\
+    d_regs (fst (fire_timers lk now d)) = d_regs d /\
     (calls_core d -> calls_sub d (fst (fire_timers lk now d))).
 Proof.
   intros lk now d. rewrite fire_timers_fold.
   assert (G : forall l d o,
              d_callee_regs (fst (fold_left (fire_step lk) l (d, o))) = d_callee_regs d /\
              d_idgen (fst (fold_left (fire_step lk) l (d, o))) = d_idgen d /\
+             d_regs (fst (fold_left (fire_step lk) l (d, o))) = d_regs d /\
              (calls_core d -> calls_sub d (fst (fold_left (fire_step lk) l (d, o))))); [|apply G].
   clear d. induction l as [|e l IH]; intros d o; cbn [fold_left].
-  - cbn [fst]. split; [reflexivity|]. split; [reflexivity|]. intros _. apply calls_sub_refl.
+  - cbn [fst]. split; [reflexivity|]. split; [reflexivity|]. split; [reflexivity|]. intros _. apply calls_sub_refl.
   - destruct (fire_step lk (d, o) e) as [d1 o1] eqn:E.
     pose proof (fire_step_regs_same lk d o e) as R. pose proof (fire_step_core lk d o e) as C.
     rewrite E in R, C. cbn [fst] in R, C.
-    destruct (IH d1 o1) as (I1 & I2 & I3). destruct R as (_ & _ & _ & _ & R5 & R6).
-    split; [congruence|]. split; [congruence|].
+    destruct (IH d1 o1) as (I1 & I2 & I4 & I3). destruct R as (_ & _ & _ & R4 & R5 & R6).
+    split; [congruence|]. split; [congruence|]. split; [congruence|].
     intros W. destruct (C W) as [W1 S1]. eapply calls_sub_trans; [exact S1|]. now apply I3.
 Qed.
